@@ -215,6 +215,20 @@ fn dyn_value(k: u8, v: u32) -> (CqlValue, Ty) {
             }),
             Ty::List(Box::new(Ty::Tuple(vec![int.clone(), text.clone()]))),
         ),
+        // Empty at the top is kind 2; Empty one level down: in a list / set / vector, as map key and value, as tuple
+        // field, as UDT field (the column types come from the generator: every non-emptiable and emptiable type)
+        20 => (V::List(match v { 0 => vec![V::Empty, V::Empty], 1 => vec![], 2 => vec![V::Int(1), V::Empty], _ => vec![V::Empty] }), Ty::List(Box::new(int.clone()))),
+        21 => (V::Map(match v { 0 => vec![(V::Empty, V::Empty)], 1 => vec![], 2 => vec![(V::Int(1), V::Empty)], _ => vec![(V::Empty, V::Int(1))] }), Ty::Map(Box::new(int.clone()), Box::new(int.clone()))),
+        22 => (V::Tuple(match v { 0 => vec![Some(V::Empty), Some(V::Empty)], 1 => vec![None, Some(V::Empty)], 2 => vec![Some(V::Int(1)), Some(V::Empty)], _ => vec![Some(V::Empty)] }), Ty::Tuple(vec![int.clone(), int.clone()])),
+        23 => (
+            match v {
+                0 => udt(vec![("a", Some(V::Empty)), ("b", Some(V::Empty))]),
+                1 => udt(vec![("b", Some(V::Empty))]),
+                2 => udt(vec![("a", Some(V::Int(1))), ("b", Some(V::Empty))]),
+                _ => udt(vec![("a", Some(V::Empty))]),
+            },
+            udt_ty(&[("a", int.clone()), ("b", int.clone())]),
+        ),
         // a vector value of the wrong length, at depth
         _ => (
             V::Set(match v {
